@@ -10,6 +10,58 @@ class RuntimeErr(Exception):
     pass
 
 
+# Numbers: Guile integers are unbounded.  Every quantity the generated code can form from 64-bit file
+# attributes and 64-bit constants with one multiplication/addition fits in NW bits, so all arithmetic is done
+# on signed NW-bit vectors, where it cannot wrap (keeps the queries in QF_BV, which z3 decides quickly).
+NW = 136
+
+
+DIVDEFS = []            # definitional constraints of the quotients introduced by udiv_const
+_divmemo = {}
+
+
+def udiv_const(a, d):
+    """floor(a / d) for a non-negative NW-bit a and a positive constant d, as a fresh variable constrained by the
+    division lemma a = q*d + r, 0 <= r < d (cheaper for the SAT back end than a division circuit); equal
+    dividends share one quotient variable"""
+    a = z3.simplify(num(a))
+    if z3.is_bv_value(a):
+        return num(a.as_long() // d)
+    key = (a.get_id(), d)
+    if key not in _divmemo:
+        k = len(_divmemo)
+        q = z3.BitVec("q%d_div%d" % (k, d), NW)
+        r = z3.BitVec("r%d_div%d" % (k, d), NW)
+        DIVDEFS.extend([a == q * num(d) + r, z3.ULT(r, num(d)), z3.ULE(q, a)])
+        _divmemo[key] = (q, a)
+    return _divmemo[key][0]
+
+
+def reset_divdefs():
+    del DIVDEFS[:]
+    _divmemo.clear()
+
+
+def const_of(x):
+    x = z3.simplify(x)
+    return x.as_long() if z3.is_bv_value(x) else None
+
+
+def num(x):
+    """int / z3 bit-vector of any width (unsigned) -> signed NW-bit vector"""
+    if isinstance(x, int):
+        return z3.BitVecVal(x, NW)
+    if z3.is_bv(x):
+        if x.size() == NW:
+            return x
+        if x.size() < NW:
+            return z3.ZeroExt(NW - x.size(), x)
+        return z3.Extract(NW - 1, 0, x)
+    if z3.is_int(x):
+        return z3.Int2BV(x, NW)
+    raise RuntimeErr("not a number: %r" % (x,))
+
+
 WILDCARDS = set(map(ord, "*?[\\"))
 
 
@@ -22,13 +74,14 @@ class FileRec:
 
     def __init__(self, tag="f"):
         self.tag = tag
-        self.ints = {a: z3.Int("%s_%s" % (tag, a.replace("-", "_"))) for a in self.INT_ATTRS}
+        self.raw = {a: z3.BitVec("%s_%s" % (tag, a.replace("-", "_")), 64) for a in self.INT_ATTRS}
+        self.ints = {a: z3.ZeroExt(NW - 64, v) for a, v in self.raw.items()}
         self.bools = {a: z3.Bool("%s_%s" % (tag, a)) for a in self.BOOL_ATTRS}
         self.mode = z3.BitVec("%s_mode" % tag, 32)
         self.uf = {}
 
     def constraints(self):
-        return [v >= 0 for v in self.ints.values()]
+        return []          # attributes are unsigned 64-bit quantities by construction
 
     def pred(self, name, *args):
         """uninterpreted predicate of the file (fnmatch on an opaque string, xattr presence...).
@@ -105,22 +158,17 @@ class Machine:
         self.events.append(dict(guard=g, kind=kind, port=port, payload=list(payload), extra=extra, held=tuple(held)))
 
     def to_int(self, v, g, what):
-        if isinstance(v, tuple) and v[0] == "int":
-            return v[1]
-        if isinstance(v, tuple) and v[0] == "bv":
-            return z3.BV2Int(v[1])
+        if isinstance(v, tuple) and v[0] in ("int", "bv"):
+            return num(v[1])
         self.fail(g, "%s: not a number: %r" % (what, v))
-        return z3.IntVal(0)
+        return num(0)
 
     # -------------------------------------------------------------- evaluation
     def eval(self, x, env, g, held=()):
         if x is True or x is False:
             return ("bool", x)
         if isinstance(x, Num):
-            if x.seg is not None:
-                t = x.value
-                return V_int(z3.BV2Int(t) if z3.is_bv(t) else t)
-            return V_int(z3.IntVal(x.value))
+            return V_int(num(x.value))
         if isinstance(x, Str):
             return ("str", list(x.items))
         if isinstance(x, Char):
@@ -236,8 +284,8 @@ class Machine:
         if name in f.bools and not args:
             return ("bool", f.bools[name])
         if name == "mode" and not args:
-            return ("bv", f.mode)
-        if name in ("relative-path", "absolute-path", "user", "group", "file-fid", "lipe-scan-client-mount-path") and not args:
+            return ("int", num(f.mode))
+        if name in ("relative-path", "absolute-path", "name", "user", "group", "file-fid", "lipe-scan-client-mount-path") and not args:
             return ("attr", name)
         if name == "type" and not args:
             return ("attr", "type")
@@ -246,16 +294,7 @@ class Machine:
                 self.fail(g, name + " arity")
                 return ("bool", False)
             a, b = args
-            if a[0] == "bv" or b[0] == "bv":
-                def bv(v):
-                    if v[0] == "bv":
-                        return v[1]
-                    t = z3.simplify(v[1]) if is_sym(v[1]) else z3.IntVal(v[1])
-                    return z3.Int2BV(t, 32)
-                # comparison on non-negative 32-bit quantities: compare as integers
-                x, y = z3.BV2Int(bv(a)) if a[0] == "bv" else self.to_int(a, g, name), z3.BV2Int(bv(b)) if b[0] == "bv" else self.to_int(b, g, name)
-            else:
-                x, y = self.to_int(a, g, name), self.to_int(b, g, name)
+            x, y = self.to_int(a, g, name), self.to_int(b, g, name)
             return ("bool", {"=": x == y, "<": x < y, ">": x > y, "<=": x <= y, ">=": x >= y}[name])
         if name in ("+", "-", "*"):
             vals = [self.to_int(a, g, name) for a in args]
@@ -268,9 +307,11 @@ class Machine:
         if name == "quotient":
             a, b = self.to_int(args[0], g, name), self.to_int(args[1], g, name)
             self.err = b_or(self.err, b_and(g, b == 0))
-            # truncating division
-            q = z3.If(z3.Or(z3.And(a >= 0, b > 0), z3.And(a <= 0, b < 0)), _absdiv(a, b), -_absdiv(a, b))
-            return V_int(q)
+            d = const_of(b)
+            if d is not None and 0 < d < (1 << 64):
+                # quotient truncates toward zero
+                return V_int(z3.If(a >= 0, udiv_const(a, d), -udiv_const(z3.If(a >= 0, num(0), -a), d)))
+            return V_int(a / b)          # signed bit-vector division truncates toward zero, like quotient
         if name == "/":
             a, b = self.to_int(args[0], g, name), self.to_int(args[1], g, name)
             self.err = b_or(self.err, b_and(g, b == 0))
@@ -279,15 +320,14 @@ class Machine:
             return ("ratio", a, b)
         if name == "logand":
             a, b = args
-            def bv(v):
-                if v[0] == "bv":
-                    return v[1]
-                return z3.Int2BV(v[1], 32)
-            return ("bv", bv(a) & bv(b))
+            return ("int", self.to_int(a, g, name) & self.to_int(b, g, name))
         if name == "round-up-power-of-2":
             x, y = self.to_int(args[0], g, name), self.to_int(args[1], g, name)
-            # least multiple of y that is >= x
-            return V_int(((x + y - 1) / y) * y)
+            # least multiple of y that is >= x  (non-negative quantities)
+            d = const_of(y)
+            if d is not None and 0 < d < (1 << 64):
+                return V_int(udiv_const(x + y - 1, d) * y)
+            return V_int(z3.UDiv(x + y - 1, y) * y)
         if name in ("call-with-relative-path", "call-with-name"):
             attr = "relative-path" if name == "call-with-relative-path" else "name"
             return self.apply(args[0], [("attr", attr)], g, held)
